@@ -32,7 +32,7 @@ Judge(sch, s, e) ==
 
 Init == tid \in 1..Len(Traces) /\ i = 0 /\ st = PadInit /\ nbad = 0
 Next == /\ i < Len(Traces[tid].ev)
-        /\ LET e == Traces[tid].ev[i+1]  j == Judge(Traces[tid].sch, st, e) IN
+        /\ \E j \in {LET e == Traces[tid].ev[i+1] IN Judge(Traces[tid].sch, st, e)} :     \* bound once (an action-level LET would be re-evaluated at every use)
            /\ st' = j.st /\ i' = i + 1 /\ nbad' = nbad + Len(j.bad) /\ UNCHANGED tid
            /\ (j.bad # <<>> => PrintT(ToJson([tid |-> tid, step |-> i+1, bad |-> j.bad])))
            /\ (i + 1 = Len(Traces[tid].ev) => PrintT(ToJson([tid |-> tid, done |-> TRUE, nbad |-> nbad'])))
